@@ -125,9 +125,9 @@ def ofGen (g : Nat × List String × List String × List (String × List (String
   { startCodons := g.2.1.map String.toList, stopCodons := g.2.2.1.map String.toList,
     aminoAcids := g.2.2.2.map fun a => { letter := a.1.toList, codons := a.2.map fun c => { triplet := c.1.toList, weight := c.2 } } }
 
-def genTables : List (Nat × Table) := Gen.codonTables.map fun g => (g.1, ofGen g)
+def genTable? (id : Nat) : Option Table := (Gen.codonTables.find? (·.1 == id)).map ofGen
 
-def genTable? (id : Nat) : Option Table := (genTables.find? (·.1 == id)).map (·.2)
+def genTables : List (Nat × Table) := Gen.codonTables.map fun g => (g.1, ofGen g)
 
 /-- `GetCodonTable(id)`: a missing key of `defaultCodonTablesByNumber` reads as the zero `Table` -/
 def getCodonTable (id : Nat) : Table :=
